@@ -33,6 +33,7 @@ func checkC10(p *Prog, r *Report) {
 	tillagePostponement(p, r, "C10.R12")
 	headerLineCounts(p, r, "C10.R13")
 	readersAllLines(p, r, "C10.R14")
+	fertiliserBooksReset(p, r, "C10.R15")
 	// schedule dates are text in the configured date format ("all date formats")
 	dateTextRules(p, r, "C10.R9")
 	inputHelpers(p, r, "C10.R10")
@@ -1666,5 +1667,37 @@ func readersAllLines(p *Prog, r *Report, rule string) {
 		if !found[d] {
 			r.Ob("all-lines:"+d, "-", false, "reader of the "+d+" not found in the input routine")
 		}
+	}
+}
+
+// ---------------------------------------------------------------- the fertiliser books are reset with a measurement only
+
+// fertiliserBooksReset: applied minus dissolved mineral fertiliser (DSUMM − UMS) is the undissolved pool that the
+// mineralisation routine feeds into the soil.  A store of 0 into either sum anywhere but under the sampling-date
+// test of the run routine (where the measured profile replaces the state) makes undissolved fertiliser vanish — at
+// an annual output date, say.
+func fertiliserBooksReset(p *Prog, r *Report, rule string) {
+	r.Rule(rule, "the applied and the dissolved mineral-fertiliser sums are reset only when a measured profile replaces the state: every store of a constant into either in the run routine is guarded by the sampling-date test", 2)
+	x := walked(p, "hermes.HermesSession.Run")
+	if x == nil {
+		r.Ob("fertiliser-books:reset", "-", false, "run routine not found")
+		return
+	}
+	n := 0
+	for _, e := range x.Events {
+		if e.Kind != "assign" || (e.Root != "GlobalVarsMain.DSUMM" && e.Root != "GlobalVarsMain.UMS") {
+			continue
+		}
+		if _, isC := e.Val.Const(); !isC {
+			continue
+		}
+		n++
+		onSampling := e.HasGuard(func(c *Cond) bool {
+			return c.Kind == "cmp" && c.Op == token.EQL && c.P.MentionsRoot("GlobalVarsMain.MESS")
+		})
+		r.Ob("fertiliser-books:reset", p.Pos(e.Pos), onSampling, fmt.Sprintf("%s reset under the sampling-date test: %v (guards: %s)", shortRoot(e.Root), onSampling, clip(guardKeys(e.Guards), 120)))
+	}
+	if n == 0 {
+		r.Ob("fertiliser-books:reset", "-", false, "no reset of the fertiliser sums found in the run routine (the rule's anchor is gone)")
 	}
 }
